@@ -8,7 +8,7 @@
    namespaces (theorems C02_dyn_...); the namespace-level ghost (C02_dyn_refuted_F32) is reported.
    (5) the start window of a monitor (C02_Win): changes between the informer's initial list
    (CreateInformers) and its start reach the cache through the informer's own list (C02_window_...). *)
-From Verif Require Import Common C02_Model C02_Spec C02_Proofs C02_DynProofs C02_Comp C02_CompSpec C02_CompProofs C02_Win C02_WinSpec C02_WinProofs.
+From Verif Require Import Common C02_Model C02_Spec C02_Proofs C02_DynProofs C02_Comp C02_CompSpec C02_CompProofs C02_Win C02_WinSpec C02_WinProofs C02_Hook C02_HookSpec C02_HookProofs.
 From Verif Require C01_Model C01_Spec C01_Proofs.
 Open Scope N_scope.
 
@@ -164,3 +164,54 @@ Example C02_window_hyp_met :
   T_wghost i = false /\
   w_views i = [(1, 1, Some 3, Some 23); (1, 2, Some 8, Some 18); (2, 1, Some 9, Some 9); (2, 3, Some 1, Some 31)].
 Proof. vm_compute. split; reflexivity. Qed.
+
+(* (6) one hook with bindings of DIFFERENT TYPES that may share a name (C02_Hook / C02_HookSpec; the
+   configuration demands unique names within one binding type only), each with its own
+   includeSnapshotsFrom and group, executed any number of times in one process in any order.  For
+   every such hook and EVERY sequence of executions (each a list of contexts: kubernetes
+   Synchronization / Event, Schedule, validating, mutating): in every context of every execution
+   the keys of `snapshots` are exactly the bindings named in includeSnapshotsFrom of THE binding of
+   the context's type and name plus the kubernetes bindings sharing its group, each key once, every
+   list shows the objects of the kubernetes binding it is filed under, `objects` of a
+   Synchronization those of the binding itself, and the hook is executed with a context of the
+   binding (type) the event is for.
+   The exception (the recorded finding F31 of C09, trigger T_vm): a validating and a mutating binding of one name
+   share the webhook id (hook_manager.go: UpdateIds("", BindingName)), AdmissionLinks is keyed by it:
+   the review of the validating webhook is executed as the MUTATING binding, with its keys. *)
+Definition C02_hook_full_statement : Prop :=
+  forall i, hk_wf i = true -> P_hk i (hk_run i) (hk_types i) false = true.
+
+Theorem C02_hook_keys_are_includes_plus_group_partial : forall i, hk_wf i = true -> T_vm i = false ->
+  P_hk i (hk_run i) (hk_types i) false = true.
+Proof. exact hook_keys_are_includes_plus_group. Qed.
+Print Assumptions C02_hook_keys_are_includes_plus_group_partial.
+
+Theorem C02_hook_refuted_vm : exists i, hk_wf i = true /\ T_vm i = true /\ P_hk i (hk_run i) (hk_types i) false = false.
+Proof. exact hook_vm_refuted. Qed.
+Print Assumptions C02_hook_refuted_vm.
+
+(* history independence: what an execution yields inside any process - whatever was executed
+   before it and after it - is what the same execution yields as the first and only one *)
+Theorem C02_hook_history_independent : forall bs pre r post,
+  nth (length pre) (hk_run (mkHkIn bs (pre ++ r :: post))) [] = hk_exec (load_config bs) r
+  /\ hk_run (mkHkIn bs [r]) = [hk_exec (load_config bs) r].
+Proof. exact hook_history_independent. Qed.
+Print Assumptions C02_hook_history_independent.
+
+(* the list behind a context is a function of the binding's TYPE and name: the binding's own
+   list merged with its group's kubernetes bindings *)
+Theorem C02_hook_includes_by_type_and_name : forall bs b,
+  nodup_hb bs = true -> In b bs ->
+  get_includes (load_config bs) (hb_type b) (hb_name b) = effective bs b.
+Proof. exact hook_includes_by_type_and_name. Qed.
+Print Assumptions C02_hook_includes_by_type_and_name.
+
+(* non-vacuity: kubernetes bindings 1 (group 7, includes itself) and 2 (group 7), a schedule binding
+   ALSO named 1 (includes 3), a validating binding named 2 (group 7), kubernetes binding 3; the
+   Synchronization of kubernetes 1, then Schedule 1, then validating 2 with an Event of kubernetes 1,
+   then the Synchronization again *)
+Example C02_hook_hyp_met :
+  let i := mkHkIn [mkHB TKube 1 [1] 7; mkHB TKube 2 [] 7; mkHB TKube 3 [] 0; mkHB TSched 1 [3] 0; mkHB TValid 2 [] 7]
+                  [[(TKube, 1, true)]; [(TSched, 1, false)]; [(TValid, 2, false); (TKube, 1, false)]; [(TKube, 1, true)]] in
+  hk_wf i = true /\ T_vm i = false /\ hk_run i = [[([(1, 1); (2, 2)], 1)]; [([(3, 3)], 0)]; [([(1, 1); (2, 2)], 0); ([(1, 1); (2, 2)], 0)]; [([(1, 1); (2, 2)], 1)]].
+Proof. vm_compute. repeat split; reflexivity. Qed.
